@@ -30,6 +30,10 @@ CLAIMED = {
    text="Deductive: the line arithmetic and the accounting are verified hop by hop for all inputs: extract_docstring_linenum (= node line + newlines of the stripped whitespace prefix; loop invariant), extract_docstring, setDocstring, Documentable.report (message = description:base+offset, base chosen by section; counted), Field.report, ParseError.linenum/descr, reportErrors (once per object and section, one message per error, 0-based offsets), System.msg (every negative-threshold message counted, `once` messages once) and driver.main (exit status = the statement's formula over the final counters); 'moving the definition down by k lines moves the reported line by k' is a lemma over the spec.",
    note="Assumed: the per-construct line numbers produced inside epytext/docutils/napoleon are inputs; inspect.cleandoc, print/flush, Options.from_args, get_system and make are external (make/get_system only ever increment the violation counter). The end-to-end chain (planted problems at known physical lines, real runs, exit statuses) is exercised by the bounded native harness; it found two genuine off-by-one defects (fixed) and one pinned by the repository's doctest (known finding KF-C16-consolidated-field-line).",
    ref='6 C16'),
+ 'C20': dict(
+   text="Deductive, for pydoctor's own config layer: is_quoted and unquote_str are verified against the two regular expressions read from the real module at run time (quoted text is evaluated as a Python literal or rejected with ValueError, anything else is returned unchanged); 'every text repr() can produce is detected as quoted' is a regular-language inclusion discharged by the solver (with literal_eval(repr(s)) == s this is 'what is written quoted is read back as the same text'); the unknown-key filter of ValidatorParser.parse (a region of the real body) keeps exactly the known keys with their values, emits one warning per unknown key and raises nothing.",
+   note="NOT carried by contracts (stated gap): configargparse's merging of file values with argv - i.e. 'same effective configuration' and 'the command line overrides the file' - and the TOML/INI value classification (union-typed values are outside the engine's type language); these are decided by the bounded native harness only (every option of the real parser x 3 file formats, file vs command line). Assumed: toml, configparser, ast.literal_eval, warnings.warn. Known finding KF-C20-ini-read-as-toml.",
+   ref='6 C20'),
  'C17': dict(
    text="Deductive: every obligation (postconditions, raises-only = exception freedom, loop invariants/variants, call preconditions, lemmas) generated from the current source of sphinx._parseInventoryLine, SphinxInventory._parseInventory/_getPayload/update/error and SphinxInventoryWriter._generateLine/_generateContent/error is discharged for all inputs by z3/cvc5; the reader/writer round trip is a lemma over the two contracts. Unbounded in line, payload, byte string and object tree.",
    note="Assumed: string-library axioms (split/join; bounded-validated against CPython each run), zlib/utf-8 inverse, logger does not raise, Documentable.fullName/url/isVisible as pure functions (verified under C02/C11/C12), Sphinx's own reader external. A bounded native evaluation of the same contracts on the real code (replay harness) runs as cross-check and as stand-in when an edit leaves the subset; it is labelled bounded and not counted as proved.",
